@@ -139,6 +139,18 @@ def rule_auto(ctx, rep):
                 rep.ok("R-LIFETIME", b["key"], "unsafe fn: the caller chooses and vouches for %s" % unbound, cfg=tag)
             else:
                 rep.bad("R-LIFETIME", b["key"], "safe function `%s` returns a value borrowing for %s, a lifetime that occurs in none of its inputs (and is not outlived by one): the caller may choose any lifetime, `'static` included, so the returned view can outlive the handle or data it refers to" % (b["sig"], ", ".join(unbound)), F.loc(b), tag)
+        # R-VARIANCE: no handle type is contravariant or bivariant in a payload or lifetime parameter (a `PhantomData<fn(T)>`
+        # marker lets safe code *lengthen* a payload's lifetime: `ArcUnion<&'a X, B>` coerces to `ArcUnion<&'static X, B>`)
+        for h, hp in F.handle_paths.items():
+            adt = F.adts.get(hp)
+            if not adt or "variances" not in adt:
+                continue
+            badv = [(g["name"], v) for g, v in zip(adt["generics"], adt["variances"]) if v in ("-", "*")]
+            if badv:
+                rep.bad("R-VARIANCE", h, "%s is %s in %s: a handle may be covariant or invariant in what it holds, never contravariant/bivariant - safe code could coerce it to a longer payload lifetime and read the borrowed data after it died" % (h, "/".join("contravariant" if v == "-" else "bivariant" for _n, v in badv), ", ".join(n for n, _v in badv)), "%s:%s" % (adt["span"]["file"], adt["span"]["line"]), tag)
+            else:
+                rep.ok("R-VARIANCE", h, " ".join("%s:%s" % (g["name"], v) for g, v in zip(adt["generics"], adt["variances"])), cfg=tag)
+    rep.floor("R-VARIANCE", 6, "handle types")
     rep.floor("R-LIFETIME", 25, "functions whose result carries a lifetime")
     rep.floor("R-AUTO", 14, "12 impls on handle types + 2 on the allocation header")
     rep.floor("R-PHANTOM", 4, "four owning handles with Drop")
